@@ -130,7 +130,9 @@ First(m, checks) ==
 \* ------------------------------------------------------- API level events
 PDo(m, e) ==
   [m EXCEPT !.lq = Put(m.lq, e.id, [mut |-> e.mut, nomir |-> e.nomir, ie |-> e.ie, n |-> 0, seeks |-> 0, cancelled |-> 0,
-                                         os |-> IF "os" \in DOMAIN e THEN e.os ELSE 0]),
+                                         os |-> IF "os" \in DOMAIN e THEN e.os ELSE 0,
+                                         \* the host the request names (a pagination link: the host that served it)
+                                         to |-> IF "to" \in DOMAIN e THEN e.to ELSE m.up]),
             !.rd = NewRound(e.tc, ""), !.lastk = "", !.lasttr = e.tc]
 
 \* the caller cancelled the context of this logical request: its later failures are the caller's
@@ -262,7 +264,7 @@ PCut(m, e) ==
 PRet(m, e) ==
   IF e.id \notin DOMAIN m.lq THEN Fail(m, "trace-malformed") ELSE
   LET q == m.lq[e.id]
-      S == IF q.nomir = 1 THEN {m.up} ELSE m.hosts
+      S == IF q.nomir = 1 THEN {q.to} ELSE m.hosts
       \* os: the caller's body can be sent only once, so one failed attempt ends the request
       justified == \/ q.cancelled = 1
                    \/ (q.os = 1 /\ m.rd.failed # {})
